@@ -624,23 +624,50 @@ func ruleWalkLeaf(p *Prog, r *Report) {
 			node = prm
 		}
 	}
-	if lp == nil || node == nil {
+	if node == nil {
 		r.Unknown(rule, n, "leaf arm", p.Pos(fn.Pos()), "parameters not recognised")
 		return
 	}
-	var stores []*ssa.Store
-	for _, ref := range *lp.Referrers() {
-		if st, ok := ref.(*ssa.Store); ok && st.Addr == ssa.Value(lp) {
-			stores = append(stores, st)
+	// the result list: written through a pointer parameter, or passed in as a slice, appended to and returned
+	var st ssa.Instruction
+	var ap *ssa.Call
+	if lp != nil {
+		var stores []*ssa.Store
+		for _, ref := range *lp.Referrers() {
+			if s0, ok := ref.(*ssa.Store); ok && s0.Addr == ssa.Value(lp) {
+				stores = append(stores, s0)
+			}
 		}
+		if len(stores) != 1 {
+			r.Bad(rule, n, "leaf arm appends one LeafNode", p.Pos(fn.Pos()), fmt.Sprintf("%d appends to the result list", len(stores)))
+			return
+		}
+		st = stores[0]
+		ap, _ = stores[0].Val.(*ssa.Call)
+	} else {
+		var resT types.Type
+		if fn.Signature.Results().Len() == 1 {
+			resT = fn.Signature.Results().At(0).Type()
+		}
+		var apps []*ssa.Call
+		eachInstr(fn, func(b *ssa.BasicBlock, in ssa.Instruction) {
+			if c, ok := in.(*ssa.Call); ok && resT != nil {
+				if bi, ok := c.Call.Value.(*ssa.Builtin); ok && bi.Name() == "append" && types.Identical(c.Type(), resT) {
+					apps = append(apps, c)
+				}
+			}
+		})
+		if resT == nil {
+			r.Unknown(rule, n, "leaf arm", p.Pos(fn.Pos()), "parameters not recognised")
+			return
+		}
+		if len(apps) != 1 {
+			r.Bad(rule, n, "leaf arm appends one LeafNode", p.Pos(fn.Pos()), fmt.Sprintf("%d appends to the result list", len(apps)))
+			return
+		}
+		st, ap = apps[0], apps[0]
 	}
-	if len(stores) != 1 {
-		r.Bad(rule, n, "leaf arm appends one LeafNode", p.Pos(fn.Pos()), fmt.Sprintf("%d appends to the result list", len(stores)))
-		return
-	}
-	st := stores[0]
-	ap, ok := st.Val.(*ssa.Call)
-	if !ok || !appendsExactlyOne(ap) {
+	if ap == nil || !appendsExactlyOne(ap) {
 		r.Bad(rule, n, "leaf arm appends one LeafNode", p.Pos(st.Pos()), "not an append of exactly one element")
 		return
 	}
